@@ -537,11 +537,12 @@ def harnesses(tier):
 
 EXPECT = ["C05.level_kurtosis_from_the_simulated_samples", "C05.price_is_sum_of_level_means_over_simulated_samples", "C05.reported_Nl_is_number_of_simulated_samples", "C05.level_mean_ml",
           "C05.level_variance_vl", "C05.mean_level_l", "C05.cost_per_sample_cl", "C05.coarse_payoff_is_zero_at_level_0",
-          "C05.raw_price_is_sum_of_level_means_when_controls_are_on"]
+          "C05.raw_price_is_sum_of_level_means_when_controls_are_on",
+          "C05.each_pricing_on_an_engine_reports_its_own_samples", "C05.controls_are_valued_in_the_representation_of_the_process"]
 
 
 def main(tier):
-    bounds = {"histories_and_variants": 'worker-pool branch (nb_of_processes = 2) with the pool run in-process, same sizes as the single-process runs',
+    bounds = {"histories_and_variants": 'worker-pool branch (nb_of_processes = 2) with the pool run in-process, same sizes as the single-process runs; one control variate on the product\'s own underlying with the regression covariances as fresh symbols (raw view only); one Engine pricing twice (3 then 1 samples on level 0); control products\' representation after Engine.initialisation',
               "quick": f"initial_level in {{0,1}}, N0 in {{1,2}}, level_max <= initial+1, sample-size answers in [0,2], <= {MAX_PASSES} passes; fixed-level variant with up to 3 "
                        "levels created at once; one level of 100 samples with answers 100..101 (1% rule)",
               "thorough": "initial_level <= 2, N0 <= 3, level_max <= initial+2, per configuration (answers bound, passes) from ([0,3], 4) on one or two levels down to "
